@@ -31,6 +31,12 @@ impl<S: ShortGroupSignatureScheme> Presentation<S> {
                         id
                     )))
                 }
+                (Statements::Signature(_), Some(_)) => {
+                    return Err(Error::InvalidPresentationData(format!(
+                        "expected a signature proof for statement '{}', but found a proof of another type",
+                        id
+                    )))
+                }
                 (_, _) => {}
             }
         }
